@@ -44,7 +44,10 @@ def main():
         bad += not ok
         out[h] = {"property": prop, "reported": ok, "by": sorted({l.split("rule=")[1].split()[0] for l in lines})}
         print("%s %s  %s  %s" % (prop, h, "REPORTED" if ok else "NOT-REPORTED (exit %d)" % rr.returncode, ", ".join(out[h]["by"])))
-    json.dump(out, open(os.path.join(ROOT, "selftest", "REVERTS.json"), "w"), indent=1, sort_keys=True)
+    rp = os.path.join(ROOT, "selftest", "REVERTS.json")
+    if want and os.path.exists(rp):         # a partial run updates the recorded results
+        old = json.load(open(rp)); old.update(out); out = old
+    json.dump(out, open(rp, "w"), indent=1, sort_keys=True)
     return 1 if bad else 0
 
 
